@@ -21,7 +21,10 @@ BASE_FAIL = {'tests/test_ast.py::test_parsed', 'tests/test_ast.py::test_pure_nod
 
 
 def sh(cmd, cwd=None, timeout=3600):
-    p = subprocess.run(cmd, shell=True, cwd=cwd, capture_output=True, text=True, timeout=timeout)
+    env = dict(os.environ)
+    if cwd and cwd.startswith('/tmp/vw_'):
+        env['PYTHONPATH'] = cwd          # demos and the suite import the scratch checkout, not the installed /repo
+    p = subprocess.run(cmd, shell=True, cwd=cwd, capture_output=True, text=True, timeout=timeout, env=env)
     return p.returncode, p.stdout + p.stderr
 
 
